@@ -49,6 +49,7 @@ CELLS = [
     ("int_neg", lambda: -3),
     ("int_huge", lambda: 10 ** 400),
     ("int_neghuge", lambda: -(10 ** 400)),
+    ("int_5000digits", lambda: 10 ** 5000),   # beyond sys.get_int_max_str_digits(): str() / repr() of it raise ValueError
     ("int_big_ts", lambda: 10 ** 13),
     ("int_1e17", lambda: 10 ** 17),          # a timestamp the platform's time_t conversion refuses (OSError EOVERFLOW)
     ("intenum", lambda: _IntE.A),
